@@ -171,6 +171,8 @@ def ctlOp (s : RState) (t : List String) : RState :=
     match f? with
     | some f => { s with w := w.forPairs xs ys f, expectObs := some "ok" }
     | none => { s with expectObs := none }
+  | ["isrunning", a] => { s with expectObs := some s!"ok {(w.host! (hostOf a)).running}" }
+  | ["setcurve", _] => { s with expectObs := some "ok" }
   | ["simclock"] => { s with expectObs := some s!"ok elapsed={w.elapsed} epoch={1700000000000000000 + w.elapsed}" }
   | _ => { s with expectObs := none }
 
